@@ -41,7 +41,9 @@ def one_case(ctx, k, adversarial=False, hash_ws=None, monitor=None, pgen=True, s
         mon, judged = monitor(spec, study, params, steps, dag, hash_ws, root)
     data = {"spec": spec, "hash_ws": hash_ws, "rlimit": rlimit, "params": params,
             "pgen_variant": any(p["tmpl"] is None or p["name"] != p["key"] for p in params)}
-    c = Case(data, lines, ["ok"] * (len(lines) - 1) + [out], mon,
+    # the staging tables as well (what `stageSS` of the model ends with)
+    lines = lines + ["exp.tables"]
+    c = Case(data, lines, ["ok"] * (len(lines) - 2) + [out, SS.tables_real(study, out)], mon,
              bool(params) and dag is not None and len(dag.values) > 2)
     c.dag, c.study, c.judged = dag, study, judged
     return c
